@@ -82,12 +82,28 @@ func generate(r *simkit.Rand, prop string) *simkit.Plan {
 	set("hysteresis_pct", pick(r, 0, 0, 20, 50, 100))
 	set("adaptivity", r.Intn(10)/7)
 	set("cross_shard", 1-r.Intn(4)/3)
-	nCfg := pick(r, 0, 0, 1, 2)
+	// max-nodes change configs: 0-3 entries, enable epochs in and around the simulated range (the first one
+	// often > 0, so that early epochs run on the default), shuffle caps from 1 up to a whole shard
+	nCfg := pick(r, 0, 0, 1, 2, 3)
+	if prop == "C13" {
+		nCfg = pick(r, 0, 1, 1, 2, 3)
+	}
 	set("maxnodes_n", nCfg)
 	for i := 0; i < nCfg; i++ {
-		set(fmt.Sprintf("maxnodes_epoch_%d", i), r.Range(0, epochs))
+		en := r.Range(0, epochs+1)
+		if i == 0 && r.Chance(0.6) {
+			en = r.Range(1, epochs)
+		}
+		set(fmt.Sprintf("maxnodes_epoch_%d", i), en)
 		set(fmt.Sprintf("maxnodes_max_%d", i), 100)
-		set(fmt.Sprintf("maxnodes_shuffle_%d", i), r.Range(0, minShard+2))
+		sh := r.Range(1, 12)
+		switch r.Intn(10) {
+		case 0:
+			sh = 0
+		case 1, 2, 3, 4:
+			sh = r.Range(1, 3)
+		}
+		set(fmt.Sprintf("maxnodes_shuffle_%d", i), sh)
 	}
 	raterP := 0.5
 	if prop == "C15" {
@@ -286,7 +302,7 @@ func generate(r *simkit.Rand, prop string) *simkit.Plan {
 			if prop != "C13" || r.Chance(0.3) {
 				mut = r.Intn(7)
 			}
-			extra = append(extra, simkit.Step{Op: "direct", I: []int64{int64(r.Range(2, 6)), int64(mut), int64(r.Intn(64)), int64(r.Intn(1<<30) + 1)}})
+			extra = append(extra, simkit.Step{Op: "direct", I: []int64{int64(r.Range(2, 6)), int64(mut), int64(r.Intn(64)), int64(r.Intn(1<<30) + 1), int64(r.Intn(16)), int64(r.Intn(nodes))}})
 		}
 		// merge: per-node order kept, everything else interleaved by the plan
 		if p.Arm == "faultfree" {
